@@ -150,7 +150,7 @@ def check_argument_methods(prog: Program, rep: Report) -> None:
         if fn is None:
             rep.ob("R17.3-fresh-global-state", None, loc, name, "method not found")
             continue
-        fn = canon(prog, med, fn)   # private helpers inlined: a write moved into a helper is still this method's write
+        fn = canon(prog, med, fn, public=True)   # helpers (also public sibling methods) inlined: a delegated write is still this method's write
         R = Resolver(fn)
         writes = [n for n in ast.walk(fn) if isinstance(n, ast.Call) and isinstance(n.func, ast.Attribute)
                   and n.func.attr == "write"]
